@@ -169,6 +169,7 @@ func (e *Engine) runPath(h *ssa.Function, p Prefix, cfg RunConfig) (res *PathRes
 	e.ptrIDs = nil
 	e.witnessCount = 0
 	e.races = e.races[:0]
+	e.epochs = nil
 	res = e.res
 	defer func() {
 		r := recover()
@@ -202,6 +203,11 @@ func (e *Engine) runPath(h *ssa.Function, p Prefix, cfg RunConfig) (res *PathRes
 		default:
 			res.Outcome = "engine-error"
 			res.Detail = fmt.Sprintf("%v\n%s\n%s", r, e.stackString(), debug.Stack())
+		}
+		if len(e.races) > 0 {
+			res.Outcome = "race"
+			res.Detail = e.races[0].detail
+			e.safeRecordFailure("race", h.Name()+"/no-data-race", e.races[0].detail)
 		}
 		res.Trace = append([]int32(nil), e.trace...)
 		res.Steps = e.steps
